@@ -9,8 +9,18 @@ import (
 // C17_caller_bytes: the write-side APIs documented as non-mutating leave the caller's slice
 // bit-for-bit intact (client side = masking involved).
 func C17_caller_bytes() {
-	n := []int{0, 1, 5, 130}[vChoose("n", 4)]
-	p := vBytes("p", n)
+	n := []int{0, 1, 5, 130, 65537, 65539}[vChoose("n", 6)]
+	var p []byte
+	if n <= 130 {
+		p = vBytes("p", n)
+	} else {
+		// above the largest pooled size class: concrete filler with symbolic ends
+		p = make([]byte, n)
+		for i := range p {
+			p[i] = byte(i)
+		}
+		p[0], p[n-1], p[n-2] = vU8("p0"), vU8("pl"), vU8("pk")
+	}
 	keep := append([]byte{}, p...)
 	dst := &vDst{failAt: -1}
 	switch vChoose("api", 4) {
